@@ -44,8 +44,39 @@ REQUIRED = dict(monitors=['alias:variance-equals-two-pass', 'alias:update-leaves
                 classes=['rank-with-zero-samples', 'rank-with-one-sample', 'N<R', 'weights:zeros', 'weights:ties',
                          'values:vector', 'mp:R>=3', 'mp:derived', 'mp:binner-pass-through', 'mp:binner-flux',
                          'alias:same-objects-two-accumulators', 'alias:one-buffer-overwritten',
-                         'alias:several-accumulators-other-weights'])
+                         'alias:several-accumulators-other-weights', 'values:tight-spread'])
 TOL = 1e-10
+EPS = float(np.finfo(float).eps)
+
+
+def ref_var(values, weights):
+    """Weighted population variance to (close to) full precision: the data are shifted by their first sample (exact for
+    data that lie close together, and the variance does not depend on the shift) and the two passes run in extended
+    precision, so the reference does not itself lose the digits a tight spread leaves."""
+    x = np.asarray(values, dtype=np.longdouble)
+    w = np.asarray(weights, dtype=np.longdouble)
+    d = x - x[0]
+    ws = w.reshape((-1,) + (1,) * (d.ndim - 1))
+    W = w.sum()
+    mean = (d * ws).sum(axis=0) / W
+    var = (ws * (d - mean) ** 2).sum(axis=0) / W
+    return np.asarray(mean + x[0], dtype=float), np.asarray(var, dtype=float)
+
+
+def var_allowance(values, mean=None, var=None):
+    """Absolute allowance of a variance comparison, derived from what the streaming update can deliver: every update
+    stores the running mean rounded to an ulp of its magnitude m (error eps*m, entering M2 multiplied by a deviation
+    <= range) and forms products of deviations (eps*range^2); the combined mean of identical per-rank means may differ
+    from them by an ulp, which enters squared.  n updates: 4 n eps (range^2 + m range) + (16 eps m)^2.
+    (An earlier version allowed 1e-12*|x|^2, which would have hidden a formula that cancels catastrophically when the
+    spread is small next to the mean: its error is eps*m^2, i.e. m/range times larger than this allowance.)"""
+    x = np.asarray(values, dtype=float)
+    if x.size == 0:
+        return 1e-300
+    n = x.shape[0]
+    m = float(np.max(np.abs(x)))
+    rng_ = float(np.max(np.max(x, axis=0) - np.min(x, axis=0))) if n else 0.0
+    return 4 * n * EPS * (rng_ * rng_ + m * rng_) + (16 * EPS * m) ** 2 + 1e-300
 
 
 def classify(f):
@@ -151,10 +182,10 @@ def judge_online(ctx, values, weights, assign, nranks, label):
     if float(np.sum(weights)) <= 0:
         ctx.event('domain-skip:total-weight-zero')
         return
-    mean, var = R_.weighted_mean_var(np.array(values, dtype=float), np.array(weights, dtype=float))
+    mean, var = ref_var(np.array(values, dtype=float), np.array(weights, dtype=float) + 1e-300)
     scale = np.max(np.abs(mean)) ** 2 + np.max(np.abs(np.array(values, dtype=float))) ** 2
     for r, o in enumerate(outs):
-        ctx.close('online:variance-equals-two-pass', o, var, TOL, atol=1e-12 * scale, rank=r, **feat)
+        ctx.close('online:variance-equals-two-pass', o, var, TOL, atol=var_allowance(values, mean, var), rank=r, **feat)
     for o in outs[1:]:
         ctx.check('online:same-on-every-rank', np.array_equal(np.asarray(o), np.asarray(outs[0]), equal_nan=True), **feat)
 
@@ -198,6 +229,16 @@ def wl_online(ctx, rng):
                 v[0] = 3.25          # one component constant across samples: variance exactly zero
     else:
         vals = list(rng.normal(rng.uniform(-5, 5), 10 ** rng.uniform(-3, 2), n))
+    if n and rng.random() < 0.25:
+        # a spread that is tiny next to the mean (a temperature known to millikelvins, a converged radius): any formula
+        # that subtracts squared means cancels catastrophically here
+        centre = float(10 ** rng.uniform(0, 4)) * float(rng.choice([-1, 1]))
+        rel = float(10 ** rng.uniform(-9, -4))
+        if vec:
+            vals = [centre * (1.0 + rel * rng.normal(size=len(vals[0]))) for _ in range(n)]
+        else:
+            vals = [centre * (1.0 + rel * float(rng.normal())) for _ in range(n)]
+        ctx.observe('values:tight-spread')
     split = rng.integers(0, 3)
     if split == 0:
         assign = np.arange(n) % nranks                  # the round-robin split the code uses
@@ -249,7 +290,7 @@ def wl_alias(ctx, rng):
             break
     else:
         ctx.check('alias:update-leaves-its-argument-alone', True)
-    mean, var = R_.weighted_mean_var(vals, w)
+    mean, var = ref_var(vals, w)
     scale = np.max(np.abs(mean)) ** 2 + np.max(np.abs(vals)) ** 2
     # a third accumulator per rank with OTHER weights and only part of the samples (one accumulator per posterior mode,
     # say): all accumulators exist before the first parallelVariance() and are then combined one after the other
@@ -261,7 +302,7 @@ def wl_alias(ctx, rng):
     for i in range(n):
         if keep[i]:
             C[int(assign[i])].update(np.array(vals[i], dtype=np.float64), weight=float(w3[i]))
-    mean3, var3 = R_.weighted_mean_var(vals[keep], w3[keep])
+    mean3, var3 = ref_var(vals[keep], w3[keep])
     order = [('first', A, var), ('second', B, var), ('other-weights', C, var3)]
     if rng.random() < 0.5:
         order = [order[2], order[0], order[1]]
@@ -275,7 +316,7 @@ def wl_alias(ctx, rng):
     if not bad:
         for r in range(nranks):
             for (name, _, want), out in zip(order, outs[r]):
-                ctx.close('alias:variance-equals-two-pass', out, want, TOL, atol=1e-12 * scale, accumulator=name, rank=r,
+                ctx.close('alias:variance-equals-two-pass', out, want, TOL, atol=var_allowance(vals, mean, want), accumulator=name, rank=r,
                           mode=mode, nranks=nranks, n=n, order=[o[0] for o in order])
         ctx.observe('alias:several-accumulators-other-weights')
     ctx.sig('alias', mode, nranks, n, d, wcls)
@@ -497,10 +538,10 @@ def wl_mp(ctx, rng):
             for g in got_all:
                 ctx.check('mp:fewer-than-two-samples-gives-nan', np.all(np.isnan(g)), key=key)
             continue
-        mean, var = R_.weighted_mean_var(np.array(vals), np.array(ws))
+        mean, var = ref_var(np.array(vals), np.array(ws))
         scale = float(np.max(np.abs(np.array(vals)))) ** 2
         for r, g in zip(ranks, got_all):
-            ctx.close('mp:variance-equals-two-pass', np.asarray(g) ** 2, var, TOL, atol=1e-12 * scale, key=key, rank=r['rank'],
+            ctx.close('mp:variance-equals-two-pass', np.asarray(g) ** 2, var, TOL, atol=var_allowance(vals, mean, var), key=key, rank=r['rank'],
                       R=Rn, n=len(vals), per_rank=[len([e for e in q['events'] if e[0] == 'ov_update' and e[1] == i]) for q in ranks])
     # ---- every rank reports the same, and the same as a single process
     def flat(res):
